@@ -20,7 +20,9 @@ def build(tier, repo):
             "mirror-image code (cvx<->ccv, max<->min), which is what keeps the curvature bookkeeping "
             "consistent; (R7) negated terms change list; (R8) read-modify-write through an alias; (R9) every "
             "argument filed into a max/min is tested for the matching curvature on its path; (R10) an in-place "
-            "operator replaces all components of self or none."),
+            "operator replaces all components of self or none; (R11) the first entry of a constant term is a zero "
+            "test only under its length-1 test; (R12) no in-place +=/-= of a non-sparse operand on a coefficient "
+            "that may be sparse (the contract of spmatrix's in-place slots is read off sparse.c)."),
         trusted_base=["CPython ast", "sa/effects.py (alias/effect analysis)", "sa/pyfront.py CFG"],
         assumptions=["cvxopt matrix operators/two-argument indexing return new objects (C15)"])
     w = World(repo, need_c=False)
@@ -59,4 +61,8 @@ def build(tier, repo):
                    "f.value() equals the formula: a vector constant whose first entry is 0 is not dropped")
     chk.note_analysed("constant_sentinel_tests", mr.sentinel_length_rule(r11, w))
     r11.require(4)
+    r12 = chk.rule("C11-R12", "no in-place += / -= of a non-sparse operand on a coefficient that may be sparse",
+                   "valid expressions with sparse coefficients (x + x[0], x + sum(x), x + S*x) are not refused")
+    chk.note_analysed("sparse_inplace_sites", mr.sparse_inplace_rule(r12, w, repo))
+    r12.require(2)
     return chk
